@@ -158,11 +158,41 @@ pub fn run_mt(id: &str, toks: &[&str]) -> String {
             }
         }));
     }
+    // C04 under contention: one more thread logs a line, calls flush() and reads the file at once - the line whose log call
+    // has returned must be there, however busy the other threads keep the writer (synchronous modes, one file)
+    let flush_checked = out == "file" && rot == "~" && !mode.starts_with('a') && !mode.starts_with('A');
+    let misses = std::sync::Arc::new(std::sync::atomic::AtomicUsize::new(0));
+    if flush_checked {
+        let log = log.clone();
+        let h = handle.clone();
+        let dir = dir.clone();
+        let misses = misses.clone();
+        joins.push(std::thread::spawn(move || {
+            for k in 0..lines {
+                let msg = format!("Q-{k}");
+                log.log(&log::Record::builder().level(log::Level::Info).target("t").args(format_args!("{msg}")).build());
+                h.flush();
+                let mut all = Vec::new();
+                if let Ok(rd) = std::fs::read_dir(&dir) {
+                    for e in rd.flatten() {
+                        all.extend(std::fs::read(e.path()).unwrap_or_default());
+                    }
+                }
+                let needle = format!("{msg}\n");
+                if !all.windows(needle.len()).any(|w| w == needle.as_bytes()) {
+                    misses.fetch_add(1, std::sync::atomic::Ordering::SeqCst);
+                }
+            }
+        }));
+    }
     for j in joins {
         let _ = j.join();
     }
     handle.shutdown();
-    let o = observe(out, &dir);
+    let mut o = observe(out, &dir);
+    if flush_checked {
+        o = format!("{o} q{}", misses.load(std::sync::atomic::Ordering::SeqCst));
+    }
     drop(handle);
     drop(log);
     let _ = std::fs::remove_dir_all(&dir);
